@@ -326,8 +326,11 @@ def s_pair(draw):
     if draw(st.integers(0, 4)) == 0:
         kinds = {'module': 'Length', 'face_width': 'Length', 'reference_diameter': 'Length', 'elastic_modulus': 'Stress',
                  'helix_angle': 'Angle', 'pressure_angle': 'Angle'}
-        case['reexpress'] = [[draw(st.sampled_from(['g', 'h'])), a_, draw(st.sampled_from(list(U.UNITS[kinds[a_]])))]
-                             for a_ in draw(st.lists(st.sampled_from(sorted(kinds)), min_size=1, max_size=3))]
+        # (one conversion per quantity: a round trip back into the partner's unit may move the value by an ulp, and
+        # same-unit comparisons are exact)
+        who_ = draw(st.sampled_from(['g', 'h']))
+        case['reexpress'] = [[who_, a_, draw(st.sampled_from(list(U.UNITS[kinds[a_]])))]
+                             for a_ in draw(st.lists(st.sampled_from(sorted(kinds)), min_size=1, max_size=3, unique=True))]
     if draw(st.integers(0, 3)) == 0:
         case['deepcopy'] = {'drive': draw(_qs('Torque', -3, 3, True)), 'load': draw(_qs('Torque', -3, 3, True))}
     if draw(st.integers(0, 2)) == 0:
